@@ -13,16 +13,35 @@ def run(ctx):
     ctx.gate = core.proof_gate("C10")
     for _ in ctx.gate["theorems"]:
         ctx.oblige(True)
+    import time
+    t0 = time.time()
+    timing = {"proof_gate": round(t0 - ctx.t0, 1)}
     c10_parser.run_part(ctx)
+    timing["text_to_ast"] = round(time.time() - t0, 1)
+    t0 = time.time()
     rule_b = ctx.coverage.get("rule", "")
     c10_grammar.run_part(ctx)
+    timing["ast_to_grammar"] = round(time.time() - t0, 1)
+    t0 = time.time()
     rule_a = ctx.coverage.get("rule", "")
     # the PROVED round trip (C10/YpRound.v): the formal printer's text goes through the real parser
     from checks import c10_round
     c10_round.run_part(ctx)
+    timing["round_trip"] = round(time.time() - t0, 1)
+    t0 = time.time()
     ctx.coverage["rule"] = rule_a + " || round trip: " + str(ctx.coverage.get("rule", ""))
     ctx.coverage["rule"] = "(b) text->AST: %s || (a) AST->grammar: %s" % (rule_b, ctx.coverage.get("rule", ""))
     # the FromStr entry points (yacc kind read from the text's own %grmtools header): metamorphic tie to `new`
     from checks import c10_header
     c10_header.run_part(ctx)
     ctx.coverage["rule"] += " || FromStr entry points: " + ctx.coverage.pop("header_rule", "")
+    timing["from_str"] = round(time.time() - t0, 1)
+    ctx.coverage["wall_s_by_part"] = timing
+    # the KNOWN-FINDING lines of the two classes found by the print-then-parse oracle carry the number of cases of
+    # this run and the first of them
+    notes = getattr(ctx, "c10_known_notes", {})
+    for i, k in enumerate(ctx.known_hits):
+        if k.get("match") in notes:
+            k = dict(k)
+            k["note"] = notes[k["match"]]
+            ctx.known_hits[i] = k
